@@ -58,10 +58,10 @@ func init() {
 				pb = c.Pick(2, 3)
 			}
 			b := explore.Bounds{Preempt: pb, Dev: 1, POR: true}
-			c.DFS("c09/io-server/"+pl, b)
-			c.DFS("c09/io-client/"+pl, b)
-			c.DFS("c09/get-stream/"+pl, b)
-			c.DFS("c09/ls-stream/"+pl, b)
+			c.DFSBoth("c09/io-server/"+pl, b, 1)
+			c.DFSBoth("c09/io-client/"+pl, b, 1)
+			c.DFSBoth("c09/get-stream/"+pl, b, 1)
+			c.DFSBoth("c09/ls-stream/"+pl, b, 0)
 			c.DFS("c09/ls-tick/"+pl, explore.Bounds{Preempt: c.Pick(2, 3), Dev: 1, POR: true})
 			c.DFS("c09/post-sse/"+pl, explore.Bounds{Preempt: 1, Dev: 1, POR: true})
 		}
